@@ -178,6 +178,22 @@ def run(ctx):
                 if set(got) != set(want) or abs(got[l] - want[l]) > 1e-9:
                     ctx.fail('__matmul__', '%s @ %s is not the matrix product (coefficient or phase of an operand lost)' % (na, nb),
                              dict(a=a, b=b, left=na, right=nb, got={''.join(x): str(v) for x, v in got.items()}, want={''.join(x): str(v) for x, v in want.items()}))
+    # every operator squares to +-identity, so c i^p P has the inverse P / (c i^p): the library's PauliMonomial.inverse(), for all four
+    # phase indicators (an odd indicator means the operator squares to MINUS the identity)
+    for _ in range(ctx.budget(60, 800)):
+        n = rng.choice([1, 2, 3])
+        a = G.rand_op(rng, n)
+        for k in range(4):
+            for cf in (1.0, -2.0, 0.5j):
+                ctx.case(('inverse', a[0], k, cf), k % 2 == 1, sample=dict(op='PauliMonomial.inverse', phase=k))
+                try:
+                    M_ = pc.PauliMonomial(impl.garr(a[0]), k).set_c(cf)
+                    got = _value((M_ @ M_.inverse()).reduce(), n)
+                except Exception as e:
+                    ctx.fail('PauliMonomial.inverse', 'implementation raised %r' % e, dict(a=a, phase=k, c=str(cf))); continue
+                if set(got) != {tuple('I' * n)} or abs(got[tuple('I' * n)] - 1) > 1e-9:
+                    ctx.fail('PauliMonomial.inverse', 'M @ M.inverse() is not the identity for phase indicator %d (such an operator squares to %s identity)' % (k, 'minus' if k % 2 else 'plus'),
+                             dict(a=a, phase=k, c=str(cf), got={''.join(x): str(v) for x, v in got.items()}))
     # ---- histories: operands that have been multiplied before and changed in place since (caches, aliasing)
     for _ in range(ctx.budget(120, 1500)):
         n = rng.choice([1, 2, 3, 4, 6])
